@@ -153,9 +153,10 @@ Inductive ev :=
     (* a visit_* call caused by the attribute [name]; payload = the bytes of its body;
        raw = true when the visitor is handed exactly these bytes (read_u8_vec(length)) *)
 | EFlags (deprecated synthetic : bool)             (* visit_deprecated_and_synthetic_attribute *)
-| EDeferred (slot : str) (sources : list str)
+| EDeferred (slot : str) (sources : list (str * bool))
     (* a table collected over the loop and visited after it; sources = the names of the attributes
-       (oldest first) whose rows it holds *)
+       (oldest first) that were collected into it, each with "has rows" (its u16 row count is not 0):
+       an attribute without rows makes the table present but contributes nothing to it *)
 | ECodeDeclined (attr : str)                       (* visit_code() returned None (attr = name of the attribute: Code) *)
 | ECode (attr : str) (max_stack max_locals : N) (frames : list str) (es : list ev)
     (* visit_code() returned a visitor: max_stack/max_locals, the events of the code attributes, the
@@ -282,8 +283,9 @@ Fixpoint attr_loop (g : grammar) (p : pool) (ct : ctx_table) (m : mask) (nest : 
 (* events of a finished loop, oldest first: loop events, then the deferred slots that were filled,
    then the flags event *)
 (* names of the attributes stored in [slot], oldest first *)
-Definition slot_sources (st : lstate) (slot : str) : list str :=
-  map (fun p => fst (snd p)) (filter (fun p => str_eqb (fst p) slot) (rev (l_slots st))).
+Definition has_rows (body : bytes) : bool := match rd16 body with Ok (n, _) => negb (n =? 0) | Err => false end.
+Definition slot_sources (st : lstate) (slot : str) : list (str * bool) :=
+  map (fun p => (fst (snd p), has_rows (snd (snd p)))) (filter (fun p => str_eqb (fst p) slot) (rev (l_slots st))).
 Definition deferred_events (ct : ctx_table) (st : lstate) : list ev :=
   flat_map (fun slot => match slot_sources st slot with [] => [] | srcs => [EDeferred slot srcs] end) (t_deferred ct).
 Definition loop_events (ct : ctx_table) (st : lstate) : list ev :=
